@@ -155,7 +155,18 @@ pub fn main(args: &[String]) {
             runs += 1;
             // the first template is also run with the window ending exactly at u32::MAX
             let top = ti == 0 && case["kind"] == "window" && case["count"].as_i64().unwrap() >= 1 && case["base"].as_i64().unwrap() >= 1;
-            let offset = if top { u32::MAX as i64 - (case["base"].as_i64().unwrap() + case["count"].as_i64().unwrap() - 1) } else { 0 };
+            // ... the second and third templates with the window straddling 2^16 and 2^8 (the model is translation
+            // invariant in the index)
+            let window = case["kind"] == "window" && case["count"].as_i64().unwrap() >= 1;
+            let offset = if top {
+                u32::MAX as i64 - (case["base"].as_i64().unwrap() + case["count"].as_i64().unwrap() - 1)
+            } else if window && ti == 1 {
+                65535 - case["base"].as_i64().unwrap()
+            } else if window && ti == 2 {
+                255 - case["base"].as_i64().unwrap()
+            } else {
+                0
+            };
             if let Some(m) = check_template(case, t, s.path(), offset) {
                 res.push(json!({"case": ci, "template": t.name, "index_offset": offset, "pattern": t.pattern.replace(&d, "<dir>"),
                     "input": {"base": case["base"], "count": case["count"], "kind": case["kind"], "init": case["init"]},
